@@ -415,6 +415,7 @@ type DAGOpts struct {
 	NoDupChild  bool
 	ManifestSHA bool // only sha256 for manifests (registries, oci index)
 	UniqueBytes bool // every blob has distinct bytes
+	Wide        bool // manifests with many layers (contended permits)
 }
 
 var defaultATs = []string{"application/vnd.verif.sig", "application/vnd.verif.sbom", "application/vnd.good"}
@@ -527,7 +528,11 @@ func Specs(t *rapid.T, o DAGOpts) []NodeSpec {
 			case KImage, KDocker:
 				c := pickRef(plainBlobs, "config")
 				s.Config = &c
-				nl := rapid.IntRange(0, 4).Draw(t, "nLayers")
+				maxL := 4
+				if o.Wide {
+					maxL = 9
+				}
+				nl := rapid.IntRange(0, maxL).Draw(t, "nLayers")
 				for j := 0; j < nl; j++ {
 					if !o.NoDupChild && len(s.Layers) > 0 && rapid.IntRange(0, 5).Draw(t, "dupLayer") == 0 {
 						s.Layers = append(s.Layers, s.Layers[rapid.IntRange(0, len(s.Layers)-1).Draw(t, "dupIdx")])
